@@ -1,0 +1,98 @@
+//go:build verif
+
+package raft
+
+import (
+	"fmt"
+	"io"
+	"log"
+
+	pb "go.etcd.io/raft/v3/raftpb"
+)
+
+// VerifLog exposes the unexported raftLog (stable storage plus unstable tail)
+// to the model-checking harness in /verif. Panics raised by the log's internal
+// assertions propagate to the caller.
+type VerifLog struct {
+	l *raftLog
+}
+
+// VerifDiscardLogger is a Logger that drops everything but still panics on
+// Panic/Panicf/Fatal, like the default logger.
+func VerifDiscardLogger() Logger {
+	return &DefaultLogger{Logger: log.New(io.Discard, "", 0)}
+}
+
+// NewVerifLog builds a raftLog over the given storage.
+func NewVerifLog(s Storage, maxApplyingEntsSize uint64) *VerifLog {
+	return &VerifLog{l: newLogWithSize(s, VerifDiscardLogger(), entryEncodingSize(maxApplyingEntsSize))}
+}
+
+func (v *VerifLog) Append(ents ...*pb.Entry) uint64 { return v.l.append(ents...) }
+
+// MaybeAppend is the follower-side append of a MsgApp with sender term `term`.
+func (v *VerifLog) MaybeAppend(term, prevIndex, prevTerm uint64, ents []*pb.Entry, committed uint64) (uint64, bool) {
+	return v.l.maybeAppend(logSlice{term: term, prev: entryID{term: prevTerm, index: prevIndex}, entries: ents}, committed)
+}
+func (v *VerifLog) CommitTo(i uint64)                  { v.l.commitTo(i) }
+func (v *VerifLog) StableTo(index, term uint64)        { v.l.stableTo(entryID{term: term, index: index}) }
+func (v *VerifLog) StableSnapTo(i uint64)              { v.l.stableSnapTo(i) }
+func (v *VerifLog) AcceptUnstable()                    { v.l.acceptUnstable() }
+func (v *VerifLog) Restore(s *pb.Snapshot)             { v.l.restore(s) }
+func (v *VerifLog) Term(i uint64) (uint64, error)      { return v.l.term(i) }
+func (v *VerifLog) FirstIndex() uint64                 { return v.l.firstIndex() }
+func (v *VerifLog) LastIndex() uint64                  { return v.l.lastIndex() }
+func (v *VerifLog) Committed() uint64                  { return v.l.committed }
+func (v *VerifLog) Applying() uint64                   { return v.l.applying }
+func (v *VerifLog) Applied() uint64                    { return v.l.applied }
+func (v *VerifLog) NextUnstableEnts() []*pb.Entry      { return v.l.nextUnstableEnts() }
+func (v *VerifLog) NextUnstableSnapshot() *pb.Snapshot { return v.l.nextUnstableSnapshot() }
+func (v *VerifLog) HasNextOrInProgressSnapshot() bool  { return v.l.hasNextOrInProgressSnapshot() }
+func (v *VerifLog) NextCommittedEnts(allowUnstable bool) []*pb.Entry {
+	return v.l.nextCommittedEnts(allowUnstable)
+}
+func (v *VerifLog) HasNextCommittedEnts(allowUnstable bool) bool {
+	return v.l.hasNextCommittedEnts(allowUnstable)
+}
+func (v *VerifLog) AcceptApplying(i uint64, size uint64, allowUnstable bool) {
+	v.l.acceptApplying(i, entryEncodingSize(size), allowUnstable)
+}
+func (v *VerifLog) AppliedTo(i uint64, size uint64) { v.l.appliedTo(i, entryEncodingSize(size)) }
+func (v *VerifLog) Slice(lo, hi, maxSize uint64) ([]*pb.Entry, error) {
+	return v.l.slice(lo, hi, entryEncodingSize(maxSize))
+}
+func (v *VerifLog) Entries(i, maxSize uint64) ([]*pb.Entry, error) {
+	return v.l.entries(i, entryEncodingSize(maxSize))
+}
+func (v *VerifLog) MatchTerm(index, term uint64) bool {
+	return v.l.matchTerm(entryID{term: term, index: index})
+}
+func (v *VerifLog) IsUpToDate(index, term uint64) bool {
+	return v.l.isUpToDate(entryID{term: term, index: index})
+}
+func (v *VerifLog) FindConflictByTerm(index, term uint64) (uint64, uint64) {
+	return v.l.findConflictByTerm(index, term)
+}
+func (v *VerifLog) MaybeCommit(index, term uint64) bool {
+	return v.l.maybeCommit(entryID{term: term, index: index})
+}
+
+// Unstable returns the unstable part: offset, offsetInProgress, entries
+// (aliased), snapshot (aliased), snapshotInProgress.
+func (v *VerifLog) Unstable() (uint64, uint64, []*pb.Entry, *pb.Snapshot, bool) {
+	u := &v.l.unstable
+	return u.offset, u.offsetInProgress, u.entries, u.snapshot, u.snapshotInProgress
+}
+
+func (v *VerifLog) String() string { return fmt.Sprint(v.l) }
+
+// VerifEntsSize is the encoded size of the entries as used for size limits.
+func VerifEntsSize(ents []*pb.Entry) uint64 { return uint64(entsSize(ents)) }
+
+// VerifPayloadsSize is the payload size used for the uncommitted-size quota.
+func VerifPayloadsSize(ents []*pb.Entry) uint64 { return uint64(payloadsSize(ents)) }
+
+// VerifLimitSize exposes limitSize.
+func VerifLimitSize(ents []*pb.Entry, maxSize uint64) []*pb.Entry {
+	return limitSize(ents, entryEncodingSize(maxSize))
+}
